@@ -164,6 +164,19 @@ impl Module for M {
                 emit(format!("scale.shape {} {}", sh, st));
             }
         }
+        // dotted strokes exist for rectangles only; the property does not restrict the stroke style
+        for w in [0i64, 1, 2, 3, 4, 5, 8, 9, 10, 33, 1024] {
+            for h in [0i64, 1, 2, 3, 4, 7, 8, 240] {
+                for sw in [0i64, 1, 2, 3, 4, 5, 8, 64, 128] {
+                    for a in 0..3 {
+                        emit(format!("scale.dotted rect -3 2 {} {} 7 9 {} {}", w, h, sw, a));
+                    }
+                }
+            }
+        }
+        for _ in 0..(if quick { 300 } else { 10_000 }) {
+            emit(format!("scale.dotted rect {} {} {} {} - 9 {} {}", coord(rng), coord(rng), biased(rng), biased(rng), *rng.pick(&WIDTHS), rng.below(3)));
+        }
         let n = if quick { 2500 } else { 60_000 };
         for _ in 0..n {
             let w = if rng.chance(3, 4) { *rng.pick(&WIDTHS) } else { rng.range(0, 128) };
@@ -308,6 +321,36 @@ impl Module for M {
                 ctx.expect(allocs == 0, "C08:heap-allocation", || format!("{} allocation(s) inside library calls", allocs));
                 ctx.expect(!over, "C08:iteration-budget-exceeded", || "more than 4e7 items from one iterator".into());
                 format!("ok n={} in={} alloc={}", n, inside, allocs)
+            }
+            "scale.dotted" => {
+                let shape = Shape::parse(&mut t);
+                let style = embedded_graphics::primitives::PrimitiveStyleBuilder::from(&parse_style(&mut t))
+                    .stroke_style(embedded_graphics::primitives::StrokeStyle::Dotted)
+                    .build();
+                ctx.count("dotted:rect");
+                let tb = Rectangle::new(Point::new(-2048, -2048), Size::new(4096, 4096));
+                let Shape::Rect(r) = shape else { panic!("scale.dotted needs a rect") };
+                let s = Styled::new(r, style);
+                let mut d1 = Null::<Rgb565>::new(tb, false);
+                let mut d2 = Null::<Rgb565>::new(tb, true);
+                alloc_arm(true);
+                let _ = s.bounding_box();
+                s.draw(&mut d1).unwrap();
+                s.draw(&mut d2).unwrap();
+                let mut k = 0u64;
+                for _ in s.pixels() {
+                    k += 1;
+                    if k > 40_000_000 {
+                        break;
+                    }
+                }
+                let allocs = alloc_arm(false);
+                if d1.n > 0 {
+                    ctx.nontrivial(op);
+                }
+                ctx.expect(allocs == 0, "C08:heap-allocation", || format!("{} allocation(s)", allocs));
+                ctx.expect(!d1.over && !d2.over && k <= 40_000_000, "C08:iteration-budget-exceeded", || "budget".into());
+                format!("ok n={} alloc={}", d1.n + d2.n + k, allocs)
             }
             "scale.text" => {
                 let font = t.str();
